@@ -24,10 +24,11 @@ import regen_c10
 import c10_refdev as ref
 
 PID = "C10"
-THEOREMS = ["frame_roundtrip", "frame_roundtrip_device", "report_roundtrip", "frames_crc_checked", "success_sound",
-            "success_sound_serial", "success_complete_refuted", "short_report_refuted", "status_mirrors_device",
-            "property_values_mirror_device", "packets_bounded", "data_written_once_in_order", "faultfree_refines_spec",
-            "write_reaches_memory", "host_terminates"]
+THEOREMS = ["frame_roundtrip", "frame_roundtrip_device", "report_roundtrip", "frames_crc_checked", "short_report_rejected",
+            "success_sound", "success_sound_serial", "success_complete", "never_partial_success", "lost_frame_surfaces",
+            "status_mirrors_device", "property_values_mirror_device", "packets_bounded", "data_written_once_in_order",
+            "faultfree_refines_spec", "write_reaches_memory", "host_terminates",
+            "sdp_read_complete", "sdp_read_exact", "sdp_write_once_in_order", "sdp_write_success_sound", "sdp_hid_data_once_in_order"]
 OPN = {1: "flash_erase_all", 2: "flash_erase_region", 3: "read_memory", 34: "read_memory(fast)", 4: "write_memory", 5: "fill_memory",
        6: "flash_security_disable", 7: "get_property", 8: "receive_sb_file", 9: "execute", 10: "call", 12: "set_property",
        13: "flash_erase_all_unsecure", 14: "efuse_program_once", 15: "efuse_read_once", 16: "flash_read_once",
@@ -727,15 +728,58 @@ SDP_FAULT_CALLS = [("read 70 B", [1, [0x1004, 70, 32], ""]), ("write register", 
                    ("skip_dcd", [6, [], ""]), ("read_status", [8, [], ""]), ("jump", [7, [0x1000], ""])]
 
 
-def sdp_stream(rep, tier, rng):
-    """SDP / i.MX ROM: live sessions against the reference device and single faults on short traces, judged by spec
-    oracles only (there is no Coq model of SDP: this part of C10 is exploration, not proof)."""
+def sdp_canon_impl(r):
+    if r[0] == "ok":
+        return (0, vlib.vj(r[1])) + tuple(r[2])
+    if r[0] == "hang":
+        return (99, ("i", 0)) + tuple(r[1])
+    k = {"SdpConnectionError": 2, "SdpCommandError": 4, "SdpError": 5, "error": 10, "AssertionError": 11, "ValueError": 12,
+         "IndexError": 13}.get(r[1], 6 if r[3] else 15)
+    return (k, ("i", r[2] if k == 4 else 0)) + tuple(r[4])
+
+
+def sdp_model_expr(case):
+    calls = VL([call_lit(c) for c in case["calls"]])
+    if case["transport"] == "serial":
+        args, fn = [VI(case["cmd_exception"]), VB(bytes.fromhex(case["stream"])), calls], 20
+    else:
+        args, fn = [VI(case["cmd_exception"]), VL([VB(bytes.fromhex(r)) for r in case["reports"]]), calls], 21
+    return f"sdp_run_case {fn} [{'; '.join(vlib.coq_lit(a) for a in args)}]"
+
+
+def sdp_compare(case, ir, mv):
+    m = mv[1]
+    mres = [(x[1][0][1], x[1][1], x[1][2][1], x[1][3][1], x[1][4][1]) for x in m[0][1]]
+    ires = [sdp_canon_impl(r) for r in ir["results"]]
+    if mres != ires:
+        k = next((i for i, (a, b) in enumerate(zip(ires, mres)) if a != b), min(len(ires), len(mres)))
+        return f"call {k} sdp.{SDPN.get(case['calls'][min(k, len(case['calls']) - 1)][0])}: impl {ires[k] if k < len(ires) else None} model {mres[k] if k < len(mres) else None}"
+    if [x[1] for x in m[1][1]] != [bytes.fromhex(w) for w in ir["writes"]]:
+        return "host writes differ"
+    if m[2][1] != ir["left"]:
+        return f"unread input: impl {ir['left']} model {m[2][1]}"
+    return None
+
+
+def sdp_stream(rep, tier, rng, model_ok=True):
+    """SDP / i.MX ROM: live sessions against the reference SDP device and single faults on short traces, judged by spec
+    oracles; every scripted case (replays of the live streams + the faulted streams) is also run through the Coq model
+    Model/SdpModel.v and compared exactly."""
     live = sdp_gen_live(tier, rng)
     lr = vlib.run_impl("c10_impl.py", {"sdp_cases": live}, timeout=3000)["sdp_cases"]
+    replays = []
+    for c, ir in zip(live, lr):
+        if all(x[0] <= 8 for x in c["calls"]):
+            sc = {"transport": c["transport"], "cmd_exception": c["cmd_exception"], "mode": "script", "calls": c["calls"], "time_limit": 5}
+            if c["transport"] == "serial":
+                sc["stream"] = "".join(ir["reads"])
+            else:
+                sc["reports"] = ir["reads"]
+            replays.append(sc)
     for c, ir in zip(live, lr):
         for sig, msg in sdp_oracle_live(c, ir):
             rep.failing(sig, msg, {"kind": "sdp-live", "case": c, "impl": ir["results"]})
-    rep.add_stream("SDP live call sequences (oracles only)", len(live),
+    rep.add_stream("SDP live call sequences", len(live),
                    len({(c["transport"], c["cmd_exception"], repr(c["calls"]), repr(ir["results"])) for c, ir in zip(live, lr)}),
                    samples=[{"transport": c["transport"], "calls": c["calls"]} for c in live[:2]])
     fcases, fwhat = [], []
@@ -755,13 +799,31 @@ def sdp_stream(rep, tier, rng):
                 fcases.append(dict(sc, transport="hid", reports=[x.hex() for x in rs]))
                 fwhat.append((fc, f"{name}: {what}"))
     fr = vlib.run_impl("c10_impl.py", {"sdp_cases": fcases}, timeout=3000)["sdp_cases"]
+    # correspondence with the Coq model on every scripted case
+    if model_ok:
+        sc_cases = replays + fcases
+        sc_res = vlib.run_impl("c10_impl.py", {"sdp_cases": replays}, timeout=3000)["sdp_cases"] + fr
+        try:
+            t1 = time.time()
+            mvs = vlib.run_model_cases("c10s", "Value MbootModel SdpModel", [sdp_model_expr(c) for c in sc_cases], shard=120, timeout=1500, jobs=8)
+            vlib.log(f"  [c10s] {len(sc_cases)} SDP cases: model {time.time() - t1:.1f} s")
+            nd = 0
+            for c, ir, mv in zip(sc_cases, sc_res, mvs):
+                d = sdp_compare(c, ir, mv)
+                if d:
+                    nd += 1
+                    if nd <= 5:
+                        vlib.log(f"  disagreement [sdp] {c['transport']} ce={c['cmd_exception']} {[(x[0], x[1]) for x in c['calls']]}: {d}")
+            rep.obligation(f"correspondence:sdp: model = implementation on {len(sc_cases)} scripted cases", nd == 0, f"{nd} disagreements")
+        except Exception as ex:  # noqa
+            rep.obligation("correspondence:sdp:model evaluation", False, repr(ex))
     kinds = {}
     for c, ir, w in zip(fcases, fr, fwhat):
         k0 = sdp_res(ir["results"][0])[0]
         kinds[k0] = kinds.get(k0, 0) + 1
         for sig, msg in sdp_oracle_fault(c, ir, w[0], w[1]):
             rep.failing(sig, msg, {"kind": "sdp-fault", "fault": w[1], "case": c, "impl": ir["results"]})
-    rep.add_stream("SDP single faults on short traces (oracles only)", len(fcases),
+    rep.add_stream("SDP single faults on short traces", len(fcases),
                    len({(c["transport"], c.get("stream", repr(c.get("reports"))), c["cmd_exception"]) for c in fcases}),
                    samples=[{"fault": w[1], "transport": c["transport"]} for c, w in list(zip(fcases, fwhat))[1:3]],
                    extra={"outcome_kinds": {str(k): v for k, v in sorted(kinds.items())}})
@@ -804,13 +866,13 @@ def run(tier):
     os.makedirs(os.path.join(vlib.WORK, PID), exist_ok=True)
     try:
         regen_c10.regen()
-        rep.obligation("translate:spsdk/mboot/*.py->Gen/GenMboot.v", True)
+        rep.obligation("translate:spsdk/mboot/*.py+spsdk/sdp/*.py->Gen/GenMboot.v", True)
     except Exception as ex:  # noqa
-        rep.obligation("translate:spsdk/mboot/*.py->Gen/GenMboot.v", False, repr(ex))
+        rep.obligation("translate:spsdk/mboot/*.py+spsdk/sdp/*.py->Gen/GenMboot.v", False, repr(ex))
     t0 = time.time()
     model_ok, mout = vlib.coq_make(["Model/MbootModel.vo"])
     if THEOREMS:
-        vlib.check_theorems(rep, PID, THEOREMS, ["Proofs/MbootProofs.vo"])
+        vlib.check_theorems(rep, PID, THEOREMS, ["Proofs/MbootProofs.vo", "Proofs/SdpProofs.vo"])
         if tier == "thorough":
             vlib.coqchk(rep, PID, THEOREMS)        # independent re-check of the compiled theorem closure
     vlib.audit(rep)
@@ -833,23 +895,17 @@ def run(tier):
         vlib.log(f"  [{tag}] {len(cases)} cases: implementation {t1 - t0:.1f} s, model {time.time() - t1:.1f} s")
         return ir, mv
 
-    def correspond(name, cases, irs, mvs, describe, repaired=None):
-        """model = implementation on every case; `repaired(i)` says that case i differs only because the implementation
-        no longer shows a recorded known finding (the model is kept faithful to the defective code until it is flipped)"""
-        nd, nrep = 0, 0
+    def correspond(name, cases, irs, mvs, describe):
+        """model = implementation on every case, exactly"""
+        nd = 0
         if mvs is None:
             return
-        for i, (c, ir, mv) in enumerate(zip(cases, irs, mvs)):
+        for c, ir, mv in zip(cases, irs, mvs):
             d = compare(c, ir, mv)
-            if d and repaired is not None and repaired(i):
-                nrep += 1
-                continue
             if d:
                 nd += 1
                 if nd <= 5:
                     vlib.log(f"  disagreement [{name}] {describe(c)}: {d[0]}")
-        if nrep:
-            vlib.log(f"  [{name}] {nrep} cases differ from the model only because a recorded known finding no longer reproduces")
         rep.obligation(f"correspondence:{name}: model = implementation on {len(cases)} cases", nd == 0, f"{nd} disagreements")
 
     # ---- codec units
@@ -914,25 +970,8 @@ def run(tier):
     fcases, fwhat = gen_faults(tier, rng)
     fir, fmv = both("c10f", fcases)
     wmap = {id(c): w[1] for c, w in zip(fcases, fwhat)}
-    def is_known(sig):
-        return any(f.get("status") == "finding" and re.fullmatch(f["signature"], sig) for f in rep.findings)
-    group = {}
-    for i, c in enumerate(fcases):
-        group.setdefault((c["transport"], c.get("stream", repr(c.get("reports"))), repr(c["calls"])), []).append(i)
-
-    def repaired(i):
-        c = fcases[i]
-        if oracle_fault(c, obs_impl(fir[i]), fwhat[i][0], fwhat[i][1]):
-            return False                      # the implementation itself violates the property here
-        if succeeded(c["calls"][0][0], canon_impl(fir[i]["results"][0])):
-            return False                      # only a failure report may replace a known defective outcome
-        for j in group[(c["transport"], c.get("stream", repr(c.get("reports"))), repr(c["calls"]))]:
-            sigs = [sg for sg, _ in oracle_fault(fcases[j], obs_model(fmv[j]), fwhat[j][0], fwhat[j][1])]
-            if sigs and all(is_known(sg) for sg in sigs):
-                return True
-        return False
     correspond("fault injection at every stream position", fcases, fir, fmv,
-               lambda c: f"{c['transport']} ce={c['cmd_exception']} {wmap[id(c)]}", repaired if fmv is not None else None)
+               lambda c: f"{c['transport']} ce={c['cmd_exception']} {wmap[id(c)]}")
     kinds = {}
     for c, ir, w in zip(fcases, fir, fwhat):
         r0 = canon_impl(ir["results"][0])
@@ -945,7 +984,10 @@ def run(tier):
                    exhaustive=(tier == "thorough"), extra={"outcome_kinds": {str(k): v for k, v in sorted(kinds.items())}})
 
     try:
-        sdp_stream(rep, tier, rng)
+        sdp_ok, _o = vlib.coq_make(["Model/SdpModel.vo"])
+        if not sdp_ok:
+            rep.obligation("correspondence:sdp: model builds", False, _o)
+        sdp_stream(rep, tier, rng, sdp_ok)
     except Exception as ex:  # noqa
         rep.obligation("sdp:oracle stream runs", False, repr(ex))
 
@@ -956,10 +998,10 @@ def run(tier):
              "report missing / duplicated / truncated, abort report, error status); distinct_nontrivial counts distinct (transport, input, "
              "setting) triples",
         trusted_base=["Coq 8.16.1 kernel + vm_compute", "tools/regen_c10.py (ast extraction of tables and command packets)",
-                      "hand model Model/MbootModel.v tied by correspondence on every observable",
+                      "hand models Model/MbootModel.v and Model/SdpModel.v tied by correspondence on every observable",
                       "DeviceBase stubs (pyserial read semantics, immediate time-out) stand for the UART / USB drivers",
                       "reference bootloader tools/impl/c10_refdev.py = Coq dev_command/sdev_recv/hdev_recv (compared state by state)"],
-        checker_cmd="coqc -R . V Props/C10/*.v (after make Proofs/MbootProofs.vo; thorough: coqchk -o over the closure)",
+        checker_cmd="coqc -R . V Props/C10/*.v (after make Proofs/MbootProofs.vo Proofs/SdpProofs.vo; thorough: coqchk -o over the closure)",
         assumptions=["wall-clock time-outs are not modelled: an exhausted device stream raises the time-out at once",
                      "USB-HID has no integrity check at this layer: payload corruption on HID is outside the fault model",
                      "arguments are non-negative integers"])
